@@ -117,6 +117,7 @@ func (s *scheme) VerifyRecovered(public kyber.Point, msg, sig []byte) error {
 // public sharing polynomial at index 0.
 func (s *scheme) Recover(public *share.PubPoly, msg []byte, sigs [][]byte, t, n uint32) ([]byte, error) {
 	var pubShares []*share.PubShare
+	seen := make(map[uint32]bool)
 	for _, sig := range sigs {
 		sh := SigShare(sig)
 		i, err := sh.Index()
@@ -124,6 +125,11 @@ func (s *scheme) Recover(public *share.PubPoly, msg []byte, sigs [][]byte, t, n 
 			continue
 		}
 		idx := uint32(i)
+		// a second partial for an index already collected adds nothing to
+		// the interpolation and must not count toward the threshold
+		if seen[idx] {
+			continue
+		}
 		if err = s.Verify(public.Eval(idx).V, msg, sh.Value()); err != nil {
 			continue
 		}
@@ -131,6 +137,7 @@ func (s *scheme) Recover(public *share.PubPoly, msg []byte, sigs [][]byte, t, n 
 		if err := point.UnmarshalBinary(sh.Value()); err != nil {
 			continue
 		}
+		seen[idx] = true
 		pubShares = append(pubShares, &share.PubShare{I: idx, V: point})
 		if uint32(len(pubShares)) >= t {
 			break
